@@ -20,6 +20,11 @@ pub mod __rt {
     pub use ::shuttle;
 }
 
+pub mod hint {
+    pub use ::std::hint::*;
+    pub use shuttle::hint::spin_loop;
+}
+
 pub mod thread {
     pub use shuttle::thread::*;
 
